@@ -301,7 +301,7 @@ func timeGrid() []timeCase {
 		name string
 		off  int
 	}
-	zones := []zone{{"UTC", zUTC}, {"Local", zLocal}, {"X", 0}, {"A", 3600}, {"B", -5 * 3600}, {"IST", 5*3600 + 1800}, {"NPT", 5*3600 + 2700},
+	zones := []zone{{"UTC", zUTC}, {"JST", 9 * 3600}, {"X", 0}, {"A", 3600}, {"B", -5 * 3600}, {"IST", 5*3600 + 1800}, {"NPT", 5*3600 + 2700},
 		{"P14", 14 * 3600}, {"M12", -12 * 3600}, {"P2359", 23*3600 + 59*60}, {"M2359", -(23*3600 + 59*60)}, {"M0001", -60}}
 	dates := [][3]int{{0, 1, 1}, {0, 2, 29}, {0, 12, 31}, {1, 1, 1}, {1, 1, 2}, {999, 12, 31}, {1000, 1, 1}, {1582, 10, 10}, {1900, 2, 28}, {1969, 12, 31}, {1970, 1, 1},
 		{2000, 2, 29}, {2024, 2, 29}, {2038, 1, 19}, {2262, 4, 11}, {2262, 4, 12}, {9999, 1, 1}, {9999, 12, 31}}
@@ -342,7 +342,7 @@ func runTimeDomain() {
 			}
 		})
 	}
-	runDomain("times", "18 dates (years 0,1,999,1000,1582,1900,1969,1970,2000,2024,2038,2262,9999) x 5 clocks x 15 nanosecond patterns x 12 zones (UTC, Local, fixed offsets -23:59..+23:59)", jobs)
+	runDomain("times", "18 dates (years 0,1,999,1000,1582,1900,1969,1970,2000,2024,2038,2262,9999) x 5 clocks x 15 nanosecond patterns x 12 zones (UTC and fixed offsets -23:59..+23:59, whole minutes)", jobs)
 }
 
 // ---- Duration ------------------------------------------------------------------------------
@@ -538,7 +538,7 @@ func runDurationDomain() {
 				if sig, what := checkDuration(d); sig != "" {
 					r.fail(sig, what, map[string]any{"domain": "duration", "ns": strconv.FormatInt(int64(d), 10)})
 				}
-				if d == -90*time.Minute-1 {
+				if d == time.Hour+time.Minute-1 {
 					r.samples = append(r.samples, map[string]any{"domain": "duration", "ns": int64(d)})
 				}
 			}
